@@ -77,7 +77,9 @@ class Auth(object):
             self.answer(what)
         elif pkt.a0 == RSAPUBLICKEY:
             self.pubkeys.append(pkt.data)
-            what = self.decide('pub', ('cnxn', 'late', 'never'))
+            what = self.decide('pub', ('cnxn', 'late', 'never', 'token'))
+            if what == 'token':
+                self.answer('token')          # a device that keeps challenging instead of accepting the key
             if what == 'cnxn':
                 self.accepted_by = ('pub', len(self.pubkeys) - 1)
                 self.answer('cnxn', self.spec.get('pub_delay', 0.0))
